@@ -380,10 +380,12 @@ class IntegerSequence(SequenceBase):
                     self.p_start = (
                         self.p_stop - self.i_step * (reps - 1))
             else:
-                remainder = (int(self.p_context_stop - self.p_start) %
+                # start at the first point >= self.p_context_start
+                # use p_stop as an on-sequence reference
+                remainder = (int(self.p_stop - self.p_context_start) %
                              int(self.i_step))
                 self.p_start = (
-                    self.p_context_start - IntegerInterval.from_integer(
+                    self.p_context_start + IntegerInterval.from_integer(
                         remainder)
                 )
 
